@@ -22,7 +22,12 @@ BAD_NAMES = [
     "truncated", "SATURATED", "true", "False", "bool", "Bool", "void", "void8", "VOID16", "int", "int8", "uint", "UINT64", "Uint7", "q1_2", "uq16_16", "Q3_4",
     "float", "float16", "FLOAT99", "optional", "aligned", "const", "Const", "struct", "super", "template", "enum", "self", "SELF", "and", "or", "not", "auto", "type", "Type",
     "con", "prn", "aux", "nul", "NUL", "com1", "COM9", "lpt0", "Lpt5", "_a_", "__", "_x_y_", "___",
+    # not names at all: characters outside [A-Za-z0-9_] - also ones that case mapping or stripping would turn into ASCII
+    "\u212aelvin", "\u212a", "\uff26\uff4f\uff4f", "na\u00efve", "x\u00b2", "a\u00a0b", "\u0130d", "\ufb01x", "a-b", "a b", "9a", "\u0661x",
 ]
+# for the names that come from the file system (short type name, namespace components) only: in a definition's text blanks around a
+# name are formatting, on disk they are part of the name
+FILE_BAD_NAMES = ["Foo ", " Foo", "Foo\t", "Foo\n", "\nFoo", "sub ", " "]
 SHORT_GOOD = ["Foo", "Bar_1", "A", "baz", "Heartbeat", "Com", "Types", "_X"]
 NS_GOOD = ["node", "sub_1", "x", "Lpt", "deep"]
 
@@ -171,8 +176,8 @@ def edits() -> st.SearchStrategy:
             st.booleans(),
         ),
         st.tuples(st.just("root"), st.sampled_from(["uavcan", "cyphal", "vendor", "regulated"])),
-        st.tuples(st.just("short"), st.one_of(st.sampled_from(SHORT_GOOD), st.sampled_from(BAD_NAMES))),
-        st.tuples(st.just("nscomp"), st.one_of(st.sampled_from(NS_GOOD), st.sampled_from(BAD_NAMES))),
+        st.tuples(st.just("short"), st.one_of(st.sampled_from(SHORT_GOOD), st.sampled_from(BAD_NAMES), st.sampled_from(FILE_BAD_NAMES))),
+        st.tuples(st.just("nscomp"), st.one_of(st.sampled_from(NS_GOOD), st.sampled_from(BAD_NAMES), st.sampled_from(FILE_BAD_NAMES))),
         st.tuples(st.just("allow"), st.booleans()),
         st.tuples(
             st.just("depref"),
